@@ -99,7 +99,7 @@ pub struct Scenario {
     /// the first fault is injected before this step (1-based); `variants` enumerates it
     pub crash_at: u32,
     pub workload_steps: u32,
-    /// known-finding triggers avoided by the generator
+    /// false = the workload may let the victim's main future return (such hosts are not judged)
     pub guarded: bool,
 }
 
@@ -820,7 +820,7 @@ fn gen_scenario(rng: &mut Rng) -> Scenario {
     let mut v: Vec<Op> = vec![Op::Listen { port: V_TCP }];
     let mut peer_tasks: Vec<Vec<Op>> = Vec::new(); // to be distributed over the peers
     let nfeat = rng.usize(1, 3);
-    let mut feats: Vec<usize> = (0..8).collect();
+    let mut feats: Vec<usize> = (0..9).collect();
     rng.shuffle(&mut feats);
     feats.truncate(nfeat);
     let has_udp = feats.contains(&5);
@@ -840,7 +840,9 @@ fn gen_scenario(rng: &mut Rng) -> Scenario {
                 // V reads (slowly or eagerly), the peer writes
                 let rgap = *rng.pick(&[0u8, 0, 1, 3]);
                 v.push(Op::Spawn { local: true, ops: vec![Op::Listen { port: 7011 }, Op::AcceptLoop { serve: vec![Op::Read { buf: *rng.pick(&[4u16, 16, 64]), times: 400, gap: rgap }] }] });
-                let times = if guarded { rng.range(1, cap.min(12) as u64) as u16 } else { rng.range(cap as u64 + 1, cap as u64 + 8) as u16 };
+                // half of the peers write more segments than tcp_capacity allows to be outstanding: they are
+                // parked on the flow-control credits when the crash lands (former known finding C04-K1, repaired)
+                let times = if rng.bool() { rng.range(1, cap.min(12) as u64) as u16 } else { rng.range(cap as u64 + 1, cap as u64 + 8) as u16 };
                 peer_tasks.push(vec![
                     Op::Sleep { ticks: rng.range(0, 4) as u8 },
                     Op::Connect { host: 0, port: 7011 },
@@ -851,8 +853,13 @@ fn gen_scenario(rng: &mut Rng) -> Scenario {
             2 => {
                 // V writes, the peer reads (eagerly: blocked in read; slowly: unread data at the peer, V blocked on credits)
                 let wgap = *rng.pick(&[0u8, 1, 2]);
-                // guarded: fewer segments than the peer's receive queue holds, so a FIN can never find it full
-                let times = if guarded { rng.range(0, (cap as u64 - 1).min(20)) as u16 } else { 300 };
+                // a third each: fewer segments than the peer's receive queue holds / just enough to fill it /
+                // an endless writer (the FIN of the crash then finds the queue full: former C04-K2, repaired)
+                let times = match rng.below(3) {
+                    0 => rng.range(0, (cap as u64 - 1).min(20)) as u16,
+                    1 => rng.range(cap as u64, cap as u64 + 4) as u16,
+                    _ => 300,
+                };
                 v.push(Op::Spawn { local: true, ops: vec![Op::Listen { port: 7012 }, Op::AcceptLoop { serve: vec![Op::Write { len: *rng.pick(&[1u16, 8, 32]), times, gap: wgap }] }] });
                 peer_tasks.push(vec![Op::Sleep { ticks: rng.range(0, 4) as u8 }, Op::Connect { host: 0, port: 7012 }, Op::Read { buf: *rng.pick(&[4u16, 16, 64]), times: 2000, gap: *rng.pick(&[0u8, 0, 2]) }]);
             }
@@ -899,24 +906,25 @@ fn gen_scenario(rng: &mut Rng) -> Scenario {
             6 => {
                 v.push(Op::Spawn { local: true, ops: vec![Op::Fs { chunks: 40, sync_every: *rng.pick(&[0u8, 1, 3]), gap: 1 }] });
             }
-            _ => {
+            7 => {
                 v.push(Op::Spawn { local: true, ops: vec![Op::Ring { writes: 40, gap: 1 }] });
             }
-        }
-    }
-    if !guarded && rng.chance(1, 3) {
-        // unguarded slice only: the victim itself opens connections (accepted, left in the peer's backlog, or refused)
-        // a listener that never accepts keeps one request per incarnation of the victim in its backlog
-        let mode = match rng.below(3) {
-            1 if cap < 5 => 0,
-            m => m,
-        };
-        let port = 7300 + mode as u16;
-        v.push(Op::Spawn { local: true, ops: vec![Op::Sleep { ticks: rng.range(0, w as u64 / 2) as u8 }, Op::Connect { host: p0 as u8, port }, Op::Write { len: 8, times: 1, gap: 0 }, Op::ReadToEnd { buf: 16 }] });
-        match mode {
-            0 => peer_tasks.push(vec![Op::Listen { port }, Op::AcceptLoop { serve: vec![Op::ReadToEnd { buf: 16 }] }]),
-            1 => peer_tasks.push(vec![Op::Listen { port }, Op::Forever { gap: 1 }]),
-            _ => {}
+            _ => {
+                // the victim itself opens a connection: accepted / left in the peer's backlog / refused
+                // (a pending or refused connect used to keep its stream-table entry: former C04-K3, repaired).
+                // A listener that never accepts keeps one request per incarnation of the victim in its backlog.
+                let mode = match rng.below(3) {
+                    1 if cap < 5 => 0,
+                    m => m,
+                };
+                let port = 7300 + mode as u16;
+                v.push(Op::Spawn { local: true, ops: vec![Op::Sleep { ticks: rng.range(0, w as u64 / 2) as u8 }, Op::Connect { host: p0 as u8, port }, Op::Write { len: 8, times: 1, gap: 0 }, Op::ReadToEnd { buf: 16 }] });
+                match mode {
+                    0 => peer_tasks.push(vec![Op::Listen { port }, Op::AcceptLoop { serve: vec![Op::ReadToEnd { buf: 16 }] }]),
+                    1 => peer_tasks.push(vec![Op::Listen { port }, Op::Forever { gap: 1 }]),
+                    _ => {}
+                }
+            }
         }
     }
     if guarded || !rng.chance(1, 3) {
@@ -1412,9 +1420,9 @@ impl Property for C04 {
     }
     fn assumptions() -> Vec<String> {
         vec![
-            "hosts whose main future has returned are not judged (property text); they are generated only in the unguarded slice".into(),
+            "hosts whose main future has returned are not judged (property text); they are generated in about 2% of the workloads (scenario flag guarded=false)".into(),
             "a connection request or datagram whose arrival step coincides with the first step of a new incarnation is not judged".into(),
-            "victims open outgoing TCP connections only in the unguarded 5% slice (a pending or refused connect leaks its stream-table entry: known finding shared with C12/C15)".into(),
+            "the triggers of the repaired defects C04-F1..F3 (peer parked on credits at the crash, victim writing >= tcp_capacity segments, victim opening connections) are generated without any guard; the matchers are kept only for the recorded `fixed` replays".into(),
             "twin comparison needs fixed latency, fail_rate 0 and fixed node order; all scenarios are generated that way".into(),
         ]
     }
@@ -1660,9 +1668,6 @@ impl Property for C04 {
         if any {
             out.push(c);
         }
-        if sc.guarded {
-            out.retain(|c| !blocked_writer_trigger(c) && !fin_stuck_trigger(c) && !victim_connects(c));
-        }
         out
     }
 
@@ -1713,7 +1718,7 @@ impl Property for C04 {
             kinds(&h.ops, &mut k);
             parts.push(format!("{}:{}", h.name, k.join(",")));
         }
-        format!("{}{}{}{} {:?} @{} cap{} lat{} | {}", if blocked_writer_trigger(sc) { "KNOWN[blocked-writer] " } else { "" }, if fin_stuck_trigger(sc) { "KNOWN[fin-stuck] " } else { "" }, if victim_connects(sc) { "KNOWN[victim-connect] " } else { "" }, if sc.guarded { "G" } else { "U" }, sc.pattern, sc.crash_at, sc.cfg.tcp_capacity, sc.cfg.max_latency_us, parts.join(" "))
+        format!("{}{}{}{} {:?} @{} cap{} lat{} | {}", if blocked_writer_trigger(sc) { "trig[blocked-writer] " } else { "" }, if fin_stuck_trigger(sc) { "trig[fin-stuck] " } else { "" }, if victim_connects(sc) { "trig[victim-connect] " } else { "" }, if sc.guarded { "G" } else { "U" }, sc.pattern, sc.crash_at, sc.cfg.tcp_capacity, sc.cfg.max_latency_us, parts.join(" "))
     }
 
     fn known_match(matcher: &str, sc: &Scenario, v: &Violation) -> bool {
